@@ -17,11 +17,30 @@ STUBS = ['injector, taps, recording sink']
 ASSUMPTIONS = ['reference recurrence written from the statement; the committed bucket after a yellow packet is not '
                'specified, so a colour is only demanded where both readings (left / emptied) agree',
                'FLOAT workloads: relative tolerance 1e-9 on instants, 1e-6 on the conformance inequality']
-PROBES = ['clock_origin_nonzero', 'precoloured_packets', 'rate_assigned_after_construction', 'packet_larger_than_bucket', 'bucket_exactly_empty_then_back_to_back', 'idle_longer_than_fill_time',
+PROBES = ['epoch_clock_fast_link', 'clock_origin_nonzero', 'precoloured_packets', 'rate_assigned_after_construction', 'packet_larger_than_bucket', 'bucket_exactly_empty_then_back_to_back', 'idle_longer_than_fill_time',
           'waited_for_tokens', 'peak_spacing', 'green', 'yellow', 'red', 'trtb_no_pir']
 
 
+def gen_epoch(rng, tier):
+    """A backlog behind a Gbit/s shaper on an epoch-seconds clock: every token wait is far below a second, most are
+    close to (or below) the resolution of the clock."""
+    n = rng.choice([300, 600, 1000])
+    rate = rng.choice([1e8, 1e9, 1e10])
+    size = rng.choice([64, 100, 1000])
+    case = {'engine': 'N', 'mode': 'FLOAT', 'epoch_fast': True, 't0': rng.choice([1.7e9, 1.0e7]), 'rate': rate,
+            'bucket': rng.choice([1500, 3000]), 'peak': None, 'workload': [[0.0, 0, size] for _ in range(n)]}
+    if rng.random() < 0.4:
+        case['elem'] = 'TRTB'
+        case['cir'], case['cbs'] = rate, case['bucket']
+        case['pir'], case['pbs'] = (rate * 2, case['bucket']) if rng.random() < 0.5 else (None, None)
+    else:
+        case['elem'] = 'TB'
+    return case
+
+
 def gen(rng, tier):
+    if rng.random() < 0.03:
+        return gen_epoch(rng, tier)
     mode = rng.choice(['GRID', 'GRID', 'FLOAT'])
     n = rng.randint(1, 30 if tier == 'quick' else 60)
     ts = gen_times(rng, n, mode)
@@ -102,6 +121,37 @@ def run(case):
     return res
 
 
+def check_epoch(w, case, arr, outs, viol, stats, rate, B):
+    """All packets wait from t0 on: in exact arithmetic packet k leaves at t0 + max(0, bytes up to k - B) * 8 / rate. The
+    float clock can only approximate that; the error must stay within a few units of its resolution instead of
+    growing with the number of packets."""
+    from fractions import Fraction
+    import math
+    stats['epoch_clock_fast_link'] = 1
+    t0 = Fraction(case['t0'])
+    res = math.ulp(case['t0'])
+    cum = 0
+    worst = 0
+    for a, pkt, size, fields in arr:
+        if pkt not in outs:
+            viol.append(('C11.1', 'packet %s never left the shaper' % pkt))
+            return viol, stats, True
+        cum += size
+        want = t0 + Fraction(max(0, cum - B) * 8) / Fraction(rate)
+        got = Fraction(outs[pkt][0])
+        err = float(got - want)
+        if abs(err) > abs(worst):
+            worst = err
+        if abs(err) > 8 * res:
+            viol.append(('C11.2' if err < 0 else 'C11.1', 'packet %s (#%d of a backlog waiting since t0=%r behind a %r bit/s shaper '
+                         'with a %d-byte bucket) left at %r; the earliest conforming instant is %r: off by %.3g s = %.0f clock '
+                         'resolutions, and growing with the backlog' %
+                         (pkt, len([1 for x in arr if x[0] <= a]) and arr.index((a, pkt, size, fields)) + 1, case['t0'], rate, B,
+                          outs[pkt][0], float(want), err, err / res)))
+            break
+    return viol, stats, True
+
+
 def check(w, case):
     viol, stats = [], {}
     mode = case.get('mode', 'GRID')
@@ -127,6 +177,8 @@ def check(w, case):
         rate, B, peak = case['cir'], case['cbs'], None
     else:
         rate, B, peak = case['rate'], case['bucket'], case.get('peak')
+    if case.get('epoch_fast'):
+        return check_epoch(w, case, arr, outs, viol, stats, rate, B)
     L = B
     last = case.get('t0', 0)          # "initially full" at the instant the shaper is created, whatever the clock shows
     Lc_a = Lc_b = case.get('cbs')     # committed bucket under two readings of "yellow"
